@@ -11,6 +11,7 @@ From KV Require Import Base.Sx Gen.Generated Model.Interp Model.Weights Model.Av
 From KV Require Import Proofs.WeightsP Proofs.WeightsBlocksP Proofs.WeightsNumP Proofs.AveragerP Proofs.C15TopP
                        Proofs.C15ExamplesP Proofs.WeightsApiP Proofs.WeightsStoreP Proofs.WeightsLawsP
                        Proofs.AveragerApiP Proofs.C15Examples2P.
+From KV Require Import Model.VanVleckTable Model.AveragerFlags Proofs.VanVleckTableP Proofs.AveragerFlagsP Proofs.C15Examples3P.
 Import ListNotations.
 Close Scope Q_scope.
 Open Scope nat_scope.
@@ -693,3 +694,146 @@ Print Assumptions kernel_default_direction.
 Theorem avg_default_flag_is_and : averager_default_flagav = false.
 Proof. exact default_flagav_is_and. Qed.
 Print Assumptions avg_default_flag_is_and.
+
+(* ================================================================== ROUND 3 *)
+(* ------------------------------------------------------------------ the Van Vleck table as katdal builds it *)
+(* Model/VanVleckTable.v: sxx_table = np.r_[0., sxx_mean, sxx_max], rxx_table = np.r_[0., rxx_grid, rxx_grid[-1]], both
+   times 2. (anchor, clip, factors, counts, exponents regenerated).  `vv_numerics_ok grid mean smax` states what the
+   source expects of its numerics: equal lengths, the grid of true powers positive and strictly increasing, the
+   expected quantised powers positive (NO underflow to zero), strictly increasing and below sxx_max.  The harness
+   checks exactly that (and the table itself, via table_ok_b) on the real arrays on every run. *)
+
+(* the regenerated anchor is the origin and both factors are positive *)
+Theorem vanvleck_table_anchor_and_factors : (vv_ax == 0 /\ vv_ay == 0 /\ 0 < vv_fx /\ 0 < vv_fy)%Q.
+Proof. destruct vv_anchor_is_origin, vv_factors_positive. repeat split; assumption. Qed.
+Print Assumptions vanvleck_table_anchor_and_factors.
+
+(* table abscissae strictly increasing, ordinates non-decreasing *)
+Theorem vanvleck_table_abscissae_strictly_increasing : forall grid mean smax, vv_numerics_ok grid mean smax ->
+  strictly_inc (vv_table grid mean smax) /\ nondec_y (vv_table grid mean smax).
+Proof. exact vv_katdal_table_ok. Qed.
+Print Assumptions vanvleck_table_abscissae_strictly_increasing.
+
+(* VV(0) = 0: needs ONLY that the first expected quantised power (and sxx_max) is positive, i.e. that no second zero
+   abscissa shadows the anchor *)
+Theorem vanvleck_zero_to_zero : forall grid mean smax,
+  match mean with [] => True | m :: _ => (0 < m)%Q end -> (0 < smax)%Q ->
+  vv_interp (vv_table grid mean smax) (Fin 0%Qc) = Fin 0%Qc.
+Proof. exact vv_katdal_zero. Qed.
+Print Assumptions vanvleck_zero_to_zero.
+
+(* ... and that hypothesis is needed: when the first expected quantised power IS zero (grid extended below the
+   underflow point) the corrected power of a dead input is the first grid power times the factor - positive *)
+Theorem vanvleck_zero_underflow_refuted : forall g0 g1 grid m1 mean smax, (0 < g0)%Q -> (0 < m1)%Q ->
+  exists y : Qc, vv_interp (vv_table (g0 :: g1 :: grid) (0%Q :: m1 :: mean) smax) (Fin 0%Qc) = Fin y /\ (0 < y)%Qc.
+Proof. exact vv_katdal_underflow. Qed.
+Print Assumptions vanvleck_zero_underflow_refuted.
+
+(* the correction with the constructed table is monotone on the extended numbers (NaN stays NaN) *)
+Theorem vanvleck_constructed_table_monotone : forall grid mean smax x y, vv_numerics_ok grid mean smax ->
+  ele x y -> ele (vv_interp (vv_table grid mean smax) x) (vv_interp (vv_table grid mean smax) y).
+Proof. exact vv_katdal_monotone. Qed.
+Print Assumptions vanvleck_constructed_table_monotone.
+
+(* the two ends: non-positive stored powers give 0, stored powers from 2 * sxx_max upwards give 2 * the last grid power *)
+Theorem vanvleck_nonpositive_to_zero : forall grid mean smax (q : Qc), vv_numerics_ok grid mean smax -> (q <= 0)%Qc ->
+  vv_interp (vv_table grid mean smax) (Fin q) = Fin 0%Qc.
+Proof. exact vv_katdal_negative. Qed.
+Print Assumptions vanvleck_nonpositive_to_zero.
+
+Theorem vanvleck_top_clipped : forall grid mean smax (q : Qc), vv_numerics_ok grid mean smax -> (vv_fx * smax <= q)%Q ->
+  vv_interp (vv_table grid mean smax) (Fin q) = Fin (Q2Qc (vv_fy * last grid 0)%Q).
+Proof. exact vv_katdal_top. Qed.
+Print Assumptions vanvleck_top_clipped.
+
+(* the table has `size` entries whenever numpy accepts the two counts (size // 2 and size - 2 - size // 2) *)
+Theorem vanvleck_table_size : forall size n, vv_table_size size = Some n -> n = size.
+Proof. exact vv_table_size_is_size. Qed.
+Print Assumptions vanvleck_table_size.
+
+Theorem vanvleck_table_length : forall grid mean smax, List.length grid = List.length mean ->
+  List.length (vv_table grid mean smax) = S (S (List.length mean)).
+Proof. exact vv_table_length. Qed.
+Print Assumptions vanvleck_table_length.
+
+(* the decision procedure the harness runs on the REAL table (exact dyadic values): if it answers true, the table has
+   strictly increasing abscissae and non-decreasing ordinates, VV(0) = 0, every non-positive power maps to 0 and the
+   correction is monotone *)
+Theorem vanvleck_table_check_sound : forall t, table_ok_b t = true ->
+  strictly_inc t /\ nondec_y t /\ vv_interp t (Fin 0%Qc) = Fin 0%Qc /\
+  (forall q : Qc, (q <= 0)%Qc -> vv_interp t (Fin q) = Fin 0%Qc) /\
+  (forall x y, ele x y -> ele (vv_interp t x) (vv_interp t y)).
+Proof. exact table_ok_sound. Qed.
+Print Assumptions vanvleck_table_check_sound.
+
+(* ------------------------------------------------------------------ the averager reads flags as BYTES *)
+(* Model/AveragerFlags.v: `flag_u8 = flag.view(np.uint8)`, `f = (flag_u8[...] != 0)`, `if f: w = wzero`.  A v4 data set
+   delivers d.flags as a bool VIEW of `select & raw`: a True backed by 2, 4, 16, 80 ... *)
+
+(* regenerated decision / constant: a sample is flagged iff its byte is non-zero; a flagged sample weighs 0 *)
+Theorem avg_flag_test_on_byte : forall b : Z, averager_flag_is_set b = negb (Z.eqb b 0).
+Proof. exact flag_test_is_nonzero. Qed.
+Print Assumptions avg_flag_test_on_byte.
+
+Theorem avg_flagged_weight_is_zero : averager_wzero = 0%Qc.
+Proof. exact wzero_is_zero. Qed.
+Print Assumptions avg_flagged_weight_is_zero.
+
+(* the loop body as written on the byte is the loop body of the round-1 model on the truth value *)
+Theorem avg_byte_step_is_step : forall a s, step_b a s = step a (to_flagged s).
+Proof. exact step_b_is_step. Qed.
+Print Assumptions avg_byte_step_is_step.
+
+(* WHATEVER non-zero byte backs a True: nothing is added to the weighted sums, OR becomes true, AND is kept *)
+Theorem avg_flagged_byte_weighs_nothing : forall a v w (b : Z), b <> 0%Z ->
+  weight_sum (step_b a (v, w, b)) = weight_sum a /\ vis_weight_sum (step_b a (v, w, b)) = vis_weight_sum a /\
+  flag_any (step_b a (v, w, b)) = true /\ flag_all (step_b a (v, w, b)) = flag_all a.
+Proof. exact flagged_byte_weighs_nothing. Qed.
+Print Assumptions avg_flagged_byte_weighs_nothing.
+
+(* every output cell = the declarative bin with "flagged iff byte <> 0" *)
+Theorem avg_bins_on_flag_bytes : forall a T F B timeav chanav flagav r,
+  average_bytes a T F B timeav chanav flagav = Some r ->
+  let ta := time_factor timeav T in
+  let ca := chan_factor chanav F in
+  forall i j b, i < T / ta -> j < F / ca -> b < B ->
+    Averager.get3 r sample0 i j b =
+    spec_bin flagav (map (fun tc => let s := Averager.get3 a bsample0 (fst tc) (snd tc) b in
+                                    (fst (fst s), snd (fst s), negb (Z.eqb (snd s) 0)))
+                         (bin_positions ta ca i j)).
+Proof. exact average_bytes_spec. Qed.
+Print Assumptions avg_bins_on_flag_bytes.
+
+(* what must NOT matter: any re-encoding of the bytes that keeps zero / non-zero leaves the whole result unchanged *)
+Theorem avg_only_truth_of_flag_bytes : forall (g : Z -> Z) a T F B timeav chanav flagav,
+  (forall b, g b = 0%Z <-> b = 0%Z) ->
+  average_bytes (recode g a) T F B timeav chanav flagav = average_bytes a T F B timeav chanav flagav.
+Proof. exact average_bytes_truth_only. Qed.
+Print Assumptions avg_only_truth_of_flag_bytes.
+
+(* the documented v4 usage average_visibilities(d.vis[:], d.weights[:], d.flags[:]) under EVERY flag selection: a
+   sample is flagged iff a SELECTED bit of its raw flag byte is set; bits outside the selection cannot matter *)
+Theorem avg_v4_flags : forall select a T F B timeav chanav flagav r,
+  average_bytes (v4_deliver select a) T F B timeav chanav flagav = Some r ->
+  let ta := time_factor timeav T in
+  let ca := chan_factor chanav F in
+  forall i j b, i < T / ta -> j < F / ca -> b < B ->
+    Averager.get3 r sample0 i j b =
+    spec_bin flagav (map (fun tc => let s := Averager.get3 a bsample0 (fst tc) (snd tc) b in
+                                    (fst (fst s), snd (fst s), negb (Z.eqb (Z.land select (snd s)) 0)))
+                         (bin_positions ta ca i j)).
+Proof. exact average_v4_spec. Qed.
+Print Assumptions avg_v4_flags.
+
+Theorem avg_v4_unselected_bits_invisible : forall select (g : Z -> Z) a T F B timeav chanav flagav,
+  (forall r, Z.land select (g r) = Z.land select r) ->
+  average_bytes (v4_deliver select (recode g a)) T F B timeav chanav flagav =
+  average_bytes (v4_deliver select a) T F B timeav chanav flagav.
+Proof. exact average_v4_selected_bits_only. Qed.
+Print Assumptions avg_v4_unselected_bits_invisible.
+
+(* the theorems discriminate: zeroing the weight arithmetically with the raw byte gives -15 w on an ingest_rfi flag *)
+Theorem avg_arithmetic_zeroing_refuted :
+  weight_sum (step_arith acc0 (cq0, 1%Qc, 16%Z)) = Q2Qc (-15 # 1) /\ weight_sum (step_b acc0 (cq0, 1%Qc, 16%Z)) = 0%Qc.
+Proof. exact arith_zeroing_differs. Qed.
+Print Assumptions avg_arithmetic_zeroing_refuted.
